@@ -218,11 +218,19 @@ def rand_case(run, cls=None, force=None, dt=None):
     spec = rng.choice([("const", 1.0), ("const", rng.uniform(0.2, 2.0)), ("affine", rng.uniform(0.5, 1.5), rng.uniform(0, 2)),
                        ("affine1", rng.uniform(0.5, 1.5), rng.uniform(0, 2)), ("tape",), ("tape",),
                        ("scalarfn", rng.uniform(0.3, 2.0))])
-    rmode = rng.choice(["rms", "rms", "TR", "missing", "both"] if force is None else ["rms", "TR", "both"])
+    rmode = rng.choice(["rms", "rms", "TR", "missing", "both", "zero"] if force is None else ["rms", "TR", "both", "zero"])
     case = {"cls": cls, "n": n, "dt": dt, "t0": t0, "uniq": uniq, "fmin": fmin, "fmax": fmax, "band": kind,
             "spec": list(spec), "rms": None, "T": None, "R": None, "tform": tform}
     if rmode == "rms":
         case["rms"] = rng.choice([1.0, rng.uniform(1e-6, 3.0)])
+    elif rmode == "zero":     # an RMS voltage / temperature / resistance that is EXACTLY zero is still a given value
+        z = rng.choice(["rms0", "rms0-int", "rms0-both", "T0", "R0"])
+        if z.startswith("rms0"):
+            case["rms"] = 0 if z == "rms0-int" else 0.0
+            if z == "rms0-both":
+                case["T"], case["R"] = rng.uniform(100, 400), rng.uniform(10, 500)
+        else:
+            case["T"], case["R"] = (0.0, rng.uniform(10, 500)) if z == "T0" else (rng.uniform(100, 400), 0.0)
     elif rmode == "both":     # rms_voltage wins over temperature and resistance
         case["rms"], case["T"], case["R"] = rng.uniform(0.1, 3.0), rng.uniform(100, 400), rng.uniform(10, 500)
     elif rmode == "TR":
@@ -486,9 +494,18 @@ def _oracle(inp):
     cls = case["cls"]
     out = []
     np.random.seed(inp["seed"])
+    must_reject = case["fmax"] <= case["fmin"] or (case["rms"] is None and (case.get("T") is None or case.get("R") is None))
     try:
         nz, times = construct(case)
-    except ValueError:
+    except ValueError as e:
+        if not must_reject:      # an exactly-zero rms / temperature / resistance, any band of positive width, … is valid
+            out.append(("rejected", "ValueError: %s" % str(e)[:120], "a noise object",
+                        "the constructor rejects a valid specification (band %r-%r, rms_voltage %r, temperature %r, "
+                        "resistance %r)" % (case["fmin"], case["fmax"], case["rms"], case.get("T"), case.get("R")), None))
+        return out
+    if must_reject:
+        out.append(("accepted", "constructed", "ValueError", "the constructor accepts a band of non-positive width or a "
+                    "specification without RMS voltage / temperature and resistance", None))
         return out
     n, dt = case["n"], case["dt"]
     if case["spec"][0] == "scalarfn":
@@ -687,6 +704,22 @@ def _oracle(inp):
             out.append(("rms-thermal", float(nz.rms), want, "rms is not sqrt(k_B T R bandwidth)", None))
     if case["rms"] is not None and float(nz.rms) != case["rms"]:
         out.append(("rms-given", float(nz.rms), case["rms"], "rms is not the requested rms_voltage", None))
+    # (6b) the same through an antenna's noise master (ThermalNoise = the FFT class): noise_rms given (also exactly 0)
+    #      wins, otherwise sqrt(k_B T R bandwidth) (also with T or R exactly 0)
+    if cls == "fft" and N and (case["rms"] is not None or (case.get("T") is not None and case.get("R") is not None)):
+        from pyrex.antenna import Antenna
+        np.random.seed(inp["seed"])
+        ant = Antenna([0.0, 0.0, -100.0], freq_range=(case["fmin"], case["fmax"]), noise_rms=case["rms"],
+                      temperature=case.get("T"), resistance=case.get("R"), unique_noise_waveforms=case["uniq"], noisy=True)
+        av = np.array(ant.make_noise(times).values)
+        want_rms = float(case["rms"]) if case["rms"] is not None else \
+            math.sqrt(1.380649e-23 * case["T"] * case["R"] * (case["fmax"] - case["fmin"]))
+        got_rms = float(ant._noise_master.rms)
+        if not fw.close(got_rms, want_rms, 1e-12, 0.0):
+            out.append(("antenna-rms", got_rms, want_rms, "the antenna's noise master does not have the RMS its noise_rms / "
+                        "temperature and resistance prescribe", None))
+        elif want_rms == 0 and np.max(np.abs(av)) != 0:
+            out.append(("antenna-rms", float(np.max(np.abs(av))), 0.0, "antenna noise with RMS 0 is not the zero trace", None))
     # (7) same random stream / same basis -> same waveform; independent objects differ
     np.random.seed(inp["seed"])
     nz2, _ = construct(case)
